@@ -93,6 +93,12 @@ def cmd_check(a):
     other = {}
     shrink_budget = 60.0 if tier == "quick" else 180.0
     t_shr = time.time()
+    if any(v["class"] == "did-not-return" for tot in totals for v, _ in tot.get("violations", [])):
+        # some library call never returned: keep the minimisation affordable (every candidate that still hangs costs a
+        # full run timeout) by shortening the alarm for the shrink / confirmation phase
+        from dsim.kernel import core as _core
+        _core.RUN_TIMEOUT_S = 15.0
+        os.environ["VERIF_RUN_TIMEOUT"] = "15"
     for tot in totals:
         world = runner.load_world(tot["world"])
         by_class = {}
@@ -108,6 +114,8 @@ def cmd_check(a):
                 if remaining <= 1 and fps:
                     break
                 from dsim.kernel import multi
+                if cls == "did-not-return" and fps:
+                    break   # one replay of a hang is enough
                 small, info = shr.shrink(world, plan, prop, cls, wall_s=max(2.0, min(20.0, remaining)))
                 fresh = multi.in_fresh_process(tot["world"], [small], prop, cls) if info.get("reproduced") else None
                 if not (fresh and fresh["reproduced"]):
